@@ -162,7 +162,7 @@ class VM:
             self.out.append(('y', self.val(ins[1]) & 0xFF))
             self.pc += 1
         elif op == 'sleep':
-            self.out.append(('s', self.val(ins[1])))
+            self.out.append(('s', self.s(self.val(ins[1]))))
             self.pc += 1
         elif op == 'flag':
             self.out.append(('f', ins[1]))
